@@ -281,6 +281,7 @@ def r10_s(ctx):
     from . import c13
     ctx.include(c13.r13_6, "R10.S")
     ctx.include(c13.r13_6c, "R10.S")
+    ctx.include(c13.r13_11, "R10.S")  # the unchecked skipper behind get_unchecked ends a number where the number ends
 
 
 RULES = [("R10.1", r10_1), ("R10.2", r10_2), ("R10.3", r10_3), ("R10.4", r10_4), ("R10.5", r10_5), ("R10.S", r10_s)]
